@@ -610,6 +610,17 @@ def corpus():
                            ops=[["Reg", 0, 0, 0, None, text], ["Reg", 1, 0, 0, None, text], ["Change", 2, 2],
                                 ["Unreg", 0, 0, 0, None, text], ["Change", 2, 2], ["CollectObj", 0], ["Change", 2, 2],
                                 ["Unreg", 1, 0, 0, None, text], ["Change", 2, 2], ["Unreg", 1, 0, 0, None, text]]))
+    # sixth wave: a link reassigned to a value that CANNOT be observed (class P has no `value`): the assignment raises out of
+    # the maintainer, but it has happened, and the replaced object must have been un-hooked.  ONE registration per case:
+    # a raising maintainer aborts the notification, so the maintainers of other registrations on that trait do not run
+    # (the model follows; the law, which recomputes from the heap, would report their handlers: see design.d/C09.md)
+    bad = [{"cls": "N", "f": 1, "g": 1, "kids": [], "m": [], "s": []}, {"cls": "N", "kids": [], "m": [], "s": []},
+           {"cls": "P", "kids": []}, {"cls": "N", "kids": [], "m": [], "s": []}]
+    for text in ("f.value", "f:value", "[f,g].value"):
+        cs.append(dict(objs=bad, handlers=["func", "meth"],
+                       ops=[["Reg", 0, 0, 0, None, text],
+                            ["Change", 1, 2], ["SetLink", 0, "f", 2], ["Change", 1, 2], ["SetLink", 0, "f", 3], ["Change", 1, 2],
+                            ["Change", 3, 2], ["SetLink", 0, "f", 2], ["Change", 3, 2], ["Change", 1, 2]]))
     # the class-level (decorated) registration of an object made by copy.copy (__reduce_ex__ / __setstate__): it must
     # follow the restored graph and be removable like any other registration
     for cls, text in DECL.items():
@@ -718,7 +729,7 @@ def run(ctx):
                        "1-3 handlers (function / bound method) x 3 dispatchers (same, a custom callable, ui on the main thread); a case is "
                        "non-trivial if some step raises or calls a handler; distinct = distinct (pool, handlers, history)")
     rnd = random.Random(ctx.seed)
-    n, maxlen = (700, 10) if ctx.tier == "quick" else (13000, 20)
+    n, maxlen = (700, 10) if ctx.tier == "quick" else (9500, 20)
     if ctx.replay:
         cases = [json.load(open(ctx.replay))["replay"]["case"]]
     else:
